@@ -24,29 +24,33 @@ Proof.
   rewrite rev_length, Nat.sub_diag. cbn [firstn]. rewrite app_nil_r, rev_involutive. reflexivity.
 Qed.
 
-Lemma placed_cells_match w c es tr : placed w c es tr -> cells_match tr es = true.
+Lemma placed_cells_match w c es tr : placed w c es tr -> cells_match tr (visible es) = true.
 Proof.
-  induction 1 as [|c e es q tr Hq Hrest IH]; [reflexivity|].
-  cbn [cells_match]. rewrite cell_eqb_refl, IH. reflexivity.
+  induction 1 as [|c e es q tr Hc Hq Hrest IH|c e es tr Hc Hrest IH]; [reflexivity| |];
+    unfold visible; cbn [filter]; rewrite Hc; cbn [negb]; fold (visible es).
+  - cbn [cells_match]. rewrite cell_eqb_refl, IH. reflexivity.
+  - exact IH.
 Qed.
 
 (* positions: when an expectation is recorded it coincides with the known
    cursor, and `placed` follows the cursor *)
 Lemma placed_positions_ok w : forall es c tr expect,
-  placed w c es tr -> (forall p, expect = Some p -> c = Some p) ->
+  placed w c es tr -> no_ctl es -> (forall p, expect = Some p -> c = Some p) ->
   fst (positions_ok w expect tr) = true /\
   (forall p, snd (positions_ok w expect tr) = Some p -> fold_left (fun c _ => adv w c) es c = Some p).
 Proof.
-  induction es as [|e es IH]; intros c tr expect Hp Hex.
+  unfold no_ctl. induction es as [|e es IH]; intros c tr expect Hp Hnc Hex.
   - inversion Hp; subst. cbn. split; [reflexivity|]. exact Hex.
-  - inversion Hp as [|c' e' es' q tr' Hq Hrest]; subst. cbn [positions_ok fold_left].
+  - cbn [forallb] in Hnc. apply andb_prop in Hnc as [Hne Hnc]. apply negb_true_iff in Hne.
+    inversion Hp as [|c' e' es' q tr' Hctl Hq Hrest|c' e' es' tr' Hctl Hrest]; subst; [|congruence].
+    cbn [positions_ok fold_left].
     destruct expect as [p0|].
     + pose proof (Hex p0 eq_refl) as Hc. subst c. rewrite (Hq p0 eq_refl), pt_eqb_refl.
-      apply IH; [exact Hrest|].
+      apply IH; [exact Hrest|exact Hnc|].
       intros p Hpe. destruct p0 as [x y]. cbn [fst snd adv] in *.
       destruct (x + 1 <? w) eqn:E; [|discriminate].
       assert ((x + 1 =? w) = false) as -> by lia. exact Hpe.
-    + apply IH; [exact Hrest|]. intros p Hpe. discriminate.
+    + apply IH; [exact Hrest|exact Hnc|]. intros p Hpe. discriminate.
 Qed.
 
 Lemma fail_if_false c i f : fail_if false c i f = f.
@@ -75,8 +79,6 @@ Proof.
 Qed.
 
 (* the believed cursor after each operation (no control characters written) *)
-Definition no_ctl (es : list element) : Prop :=
-  forallb (fun e => negb (is_control_glyph (eg e))) es = true.
 
 Lemma write_element_cur beh st e : is_control_glyph (eg e) = false ->
   ts_cur (fst (write_element beh st e)) = adv (fst (ts_size st)) (ts_cur st).
@@ -194,31 +196,14 @@ Definition OInv (s : ostate) : Prop :=
   Sync beh (os_model s) (os_vt s) /\
   (forall p, os_expect s = Some p -> ts_cur (os_model s) = Some p).
 
-Lemma wf_op_no_ctl st o : wf_op st o -> no_ctl (op_elems o).
-Proof.
-  assert (E : forall e, wf_elem e = true -> negb (is_control_glyph (eg e)) = true).
-  { intros e He. unfold wf_elem in He. apply andb_prop in He as [He _]. apply andb_prop in He as [He _].
-    rewrite (displayable_not_control _ He). reflexivity. }
-  unfold no_ctl, op_elems. destruct o; cbn [wf_op op_elements forallb]; intros H; try reflexivity.
-  - rewrite (E _ H). reflexivity.
-  - apply forallb_forall. intros e He. apply E. exact (proj1 (forallb_forall _ _) H e He).
-  - destruct H as [H _]. rewrite (E _ H). reflexivity.
-Qed.
-
-Lemma no_ctl_visible es : no_ctl es -> visible es = es.
-Proof.
-  unfold no_ctl, visible. induction es as [|e r IH]; [reflexivity|].
-  cbn [forallb filter]. intros H. apply andb_prop in H as [He Hr]. rewrite He, (IH Hr). reflexivity.
-Qed.
-
-Lemma no_ctl_has_ctl o : no_ctl (op_elems o) -> has_ctl o = false.
+Lemma has_ctl_false o : has_ctl o = false -> no_ctl (op_elems o).
 Proof.
   unfold no_ctl, op_elems, has_ctl. destruct (op_elements o) as [es|]; [|reflexivity].
   induction es as [|e r IH]; [reflexivity|]. cbn [forallb existsb]. intros H.
-  apply andb_prop in H as [He Hr]. apply negb_true_iff in He. rewrite He, (IH Hr). reflexivity.
+  apply orb_false_iff in H as [He Hr]. rewrite He, (IH Hr). reflexivity.
 Qed.
 
-Lemma wf_op_elems st o : wf_op st o -> forallb wf_elem (op_elems o) = true.
+Lemma wf_op_elems st o : wf_op st o -> forallb wf_elem_c (op_elems o) = true.
 Proof.
   unfold op_elems. destruct o; cbn [wf_op op_elements forallb]; intros H; try reflexivity.
   - rewrite H. reflexivity.
@@ -296,12 +281,10 @@ Proof.
   set (st := os_model s) in *. set (v := os_vt s) in *.
   pose proof (sync_step cfg beh Huni st v o S Hwf) as H. cbv zeta in H.
   destruct H as (S' & (tr & Hpl & Htr) & Hm).
-  pose proof (wf_op_no_ctl st o Hwf) as Hnc.
   pose proof (new_trace_app v _ tr Htr) as Hnt.
   pose proof (step_size beh st o (wf_op_not_size st o Hwf)) as Hsz.
   assert (Hw : fst (vsize (vt_bytes cfg v (obytes beh st o))) = fst (ts_size st)).
   { rewrite <- (sy_size _ _ _ S'), Hsz. reflexivity. }
-  destruct (placed_positions_ok (fst (ts_size st)) (op_elems o) (ts_cur st) tr (os_expect s) Hpl Hex) as [Hpos Hexp].
   unfold oracle_step. cbv zeta. fold v. fold st.
   rewrite (v_after_model v st o Hwf).
   cbn [o_op o_bytes o_st model_obs].
@@ -309,27 +292,36 @@ Proof.
   assert (B101 : bad_101 (vt_bytes cfg v (obytes beh st o)) = false) by exact (sync_clause_101 _ _ _ S').
   assert (B801 : truthful beh (fst (step beh st o)) (vt_bytes cfg v (obytes beh st o)) = true) by exact (sync_truthful _ _ _ S').
   assert (B102 : bad_102 tr o = false).
-  { unfold bad_102. unfold op_elems in Hpl, Hnc. destruct (op_elements o) as [es|]; [|reflexivity].
-    rewrite (no_ctl_visible es Hnc), (placed_cells_match _ _ _ _ Hpl). reflexivity. }
+  { unfold bad_102. unfold op_elems in Hpl. destruct (op_elements o) as [es|]; [|reflexivity].
+    rewrite (placed_cells_match _ _ _ _ Hpl). reflexivity. }
   assert (B1701 : bad_1701 tr o = false).
-  { unfold bad_1701. pose proof (wf_op_elems st o Hwf) as Hel. unfold op_elems in Hpl, Hnc, Hel.
+  { unfold bad_1701. pose proof (wf_op_elems st o Hwf) as Hel. unfold op_elems in Hpl, Hel.
     destruct (op_elements o) as [es|]; [|reflexivity].
-    rewrite (no_ctl_visible es Hnc), (placed_text _ _ _ _ Hpl Hel), bytes_eqb_refl. reflexivity. }
+    rewrite (placed_text _ _ _ _ Hpl Hel), bytes_eqb_refl. reflexivity. }
   assert (B103 : bad_103 tr o = false).
   { unfold bad_103. unfold op_elems in Hpl. destruct (op_elements o) as [es|]; [reflexivity|].
     inversion Hpl. reflexivity. }
-  assert (Bpos : pos_result (fst (vsize (vt_bytes cfg v (obytes beh st o)))) (os_expect s) tr o
-                 = positions_ok (fst (ts_size st)) (os_expect s) tr).
-  { unfold pos_result. rewrite (no_ctl_has_ctl o Hnc), Hw. reflexivity. }
-  rewrite B101, B801, B102, B1701, B103, Bpos, Hpos,
+  set (pr := pos_result (fst (vsize (vt_bytes cfg v (obytes beh st o)))) (os_expect s) tr o).
+  assert (Bpos : fst pr = true /\
+                 forall p, next_expect o (vsize (vt_bytes cfg v (obytes beh st o))) (snd pr) = Some p ->
+                           ts_cur (fst (step beh st o)) = Some p).
+  { unfold pr, pos_result. destruct (has_ctl o) eqn:Hc.
+    - (* a control character was written: no expectation through or after it *)
+      split; [reflexivity|]. intros p Hp. cbn [snd] in Hp. unfold has_ctl in Hc.
+      destruct o; cbn [op_elements] in Hc; try discriminate; cbn [next_expect] in Hp; discriminate.
+    - pose proof (has_ctl_false o Hc) as Hnc. rewrite Hw.
+      destruct (placed_positions_ok (fst (ts_size st)) (op_elems o) (ts_cur st) tr (os_expect s) Hpl Hnc Hex) as [Hpos Hexp].
+      split; [exact Hpos|]. intros p Hp. rewrite (step_cur beh st o Hnc).
+      unfold next_expect in Hp.
+      destruct o; try (apply Hexp; exact Hp); try discriminate.
+      destruct (inside p0 _); [exact Hp|discriminate]. }
+  destruct Bpos as [Bpos1 Bpos2].
+  rewrite B101, B801, B102, B1701, B103, Bpos1,
           (erase_clause' st v o S Hwf), (modes_clause st v o S Hwf Hm), (resend_clause st o).
   cbn [negb andb fail_if os_fail os_model os_vt os_expect].
   split; [reflexivity|]. split; [|reflexivity].
   split; [exact S'|].
-  intros p Hp. cbn [os_model os_expect] in Hp |- *. rewrite (step_cur beh st o Hnc).
-  unfold next_expect in Hp.
-  destruct o; try (apply Hexp; exact Hp); try discriminate.
-  destruct (inside p0 _); [exact Hp|discriminate].
+  intros p Hp. cbn [os_model os_expect] in Hp |- *. exact (Bpos2 p Hp).
 Qed.
 
 
